@@ -146,6 +146,9 @@ func (p *Printer) Print(w io.Writer, node Node) error {
 	case *Stmt:
 		p.stmtList([]*Stmt{node}, nil)
 	case Command:
+		// Like stmtList does for the first statement: no empty line at the top,
+		// but later newlines must not be swallowed.
+		p.firstLine = false
 		p.command(node, nil)
 	case *Word:
 		p.line = node.Pos().Line()
